@@ -81,7 +81,11 @@ Record env := mkEnv { e_dirw : nat -> bool;      (* os.access(<dir>, W_OK) *)
 
 (* w_rehash: true = _write_in_cache hashes the model file again (a third read; the code before the repair
    "hash the parsed bytes"); false = the cache key is the hash of the bytes that were parsed (no third read) *)
-Record setup := mkSetup { w_nch : nat; w_cfg : cfg; w_disc : discipline; w_env : env; w_rehash : bool }.
+(* the in-process cache MachineModel._runtime_cache (a per-process map path -> data, filled when a non-lazy load
+   completes).  RtIgnored = the shipped rule: a hit is assigned to self._data and then always overridden by the
+   content-keyed lookup or a re-parse, i.e. never served.  RtServed = a variant that serves a hit by path. *)
+Inductive rtmode := RtIgnored | RtServed.
+Record setup := mkSetup { w_nch : nat; w_cfg : cfg; w_disc : discipline; w_env : env; w_rehash : bool; w_rt : rtmode }.
 
 Inductive pc :=
 | PStart                                  (* hashlib.sha256(p.read_bytes())  -- read 1 *)
@@ -104,7 +108,10 @@ Definition is_whash (c : pc) : bool := match c with PWHash _ => true | _ => fals
 
 Record proc := mkProc { pr_path : path; pr_lazy : bool; pr_pc : pc;
                         pr_src : content;     (* ghost: the content the process' data derives from *)
-                        pr_raced : bool }.    (* ghost: the model file was edited during/after this load *)
+                        pr_raced : bool;      (* ghost: the model file was edited during/after this load *)
+                        pr_prev : option data }.  (* _runtime_cache[path] of the OS process this load runs in, at its
+                                                     start: the data returned by an earlier load of the same path in
+                                                     the same process (LSpawn names that load), None in a fresh process *)
 
 Record state := mkState { yaml : path -> content; files : loc -> option bytes; procs : nat -> option proc }.
 
@@ -115,8 +122,8 @@ Definition updp (f : nat -> option proc) (i : nat) (v : option proc) : nat -> op
 Definition updy (f : path -> content) (p : path) (c : content) : path -> content :=
   fun q => if path_eqb p q then c else f q.
 
-Definition with_pc (p : proc) (c : pc) : proc := mkProc (pr_path p) (pr_lazy p) c (pr_src p) (pr_raced p).
-Definition with_pc_src (p : proc) (c : pc) (x : content) : proc := mkProc (pr_path p) (pr_lazy p) c x (pr_raced p).
+Definition with_pc (p : proc) (c : pc) : proc := mkProc (pr_path p) (pr_lazy p) c (pr_src p) (pr_raced p) (pr_prev p).
+Definition with_pc_src (p : proc) (c : pc) (x : content) : proc := mkProc (pr_path p) (pr_lazy p) c x (pr_raced p) (pr_prev p).
 
 Definition set_pc (s : state) (pid : nat) (p : proc) (c : pc) : state :=
   mkState (yaml s) (files s) (updp (procs s) pid (Some (with_pc p c))).
@@ -145,7 +152,10 @@ Definition pstep (w : setup) (s : state) (pid : nat) (p : proc) : option state :
   match pr_pc p with
   | PStart =>
       if pr_lazy p then Some (set_pc_src s pid p (PDoneLazy (yaml s pa)) (yaml s pa))
-      else Some (set_pc s pid p (PProbe false (yaml s pa)))
+      else match w_rt w, pr_prev p with
+           | RtServed, Some d => Some (set_pc s pid p (PDone d))      (* the variant: serve _runtime_cache[path] *)
+           | _, _ => Some (set_pc s pid p (PProbe false (yaml s pa))) (* shipped: the hit is overridden below *)
+           end
   | PProbe hm h =>
       match files s (probe_loc pa hm h) with
       | Some _ => Some (set_pc s pid p (PRead hm h))
@@ -191,12 +201,14 @@ Inductive label :=
 | LStep (pid : nat)
 | LCrash (pid : nat)                          (* kill -9 / power loss of one process: files stay *)
 | LEdit (p : path) (c : content)
-| LSpawn (pid : nat) (p : path) (lazy : bool).
+| LSpawn (pid : nat) (p : path) (lazy : bool) (prev : option nat).
+   (* prev = Some q: the new load runs in the OS process that earlier ran load q of the same path, after q returned:
+      its _runtime_cache[path] holds q's data *)
 
 Definition mark_raced (pa : path) (f : nat -> option proc) : nat -> option proc :=
   fun i => match f i with
            | Some q => if path_eqb pa (pr_path q)
-                       then Some (mkProc (pr_path q) (pr_lazy q) (pr_pc q) (pr_src q) true) else Some q
+                       then Some (mkProc (pr_path q) (pr_lazy q) (pr_pc q) (pr_src q) true (pr_prev q)) else Some q
            | None => None
            end.
 
@@ -208,11 +220,27 @@ Definition step (w : setup) (s : state) (l : label) : option state :=
                   | None => None
                   end
   | LEdit pa c => Some (mkState (updy (yaml s) pa c) (files s) (mark_raced pa (procs s)))
-  | LSpawn pid pa lz => match procs s pid with
-                        | None => Some (mkState (yaml s) (files s)
-                                          (updp (procs s) pid (Some (mkProc pa lz PStart (yaml s pa) false))))
-                        | Some _ => None
-                        end
+  | LSpawn pid pa lz prev =>
+      match procs s pid with
+      | Some _ => None
+      | None =>
+          match prev with
+          | None => Some (mkState (yaml s) (files s)
+                            (updp (procs s) pid (Some (mkProc pa lz PStart (yaml s pa) false None))))
+          | Some q =>
+              match procs s q with
+              | Some pq =>
+                  match pr_pc pq with
+                  | PDone d => if path_eqb pa (pr_path pq)
+                               then Some (mkState (yaml s) (files s)
+                                            (updp (procs s) pid (Some (mkProc pa lz PStart (yaml s pa) false (Some d)))))
+                               else None
+                  | _ => None
+                  end
+              | None => None
+              end
+          end
+      end
   end.
 
 Fixpoint run (w : setup) (s : state) (ls : list label) : option state :=
@@ -266,10 +294,14 @@ Fixpoint solo_until (w : setup) (stop : pc -> bool) (fuel : nat) (s : state) (pi
 Definition fuel_of (w : setup) : nat := 12 + w_nch w.
 
 Definition spawn (w : setup) (s : state) (pid : nat) (pa : path) (lz : bool) : state :=
-  run_skip w s [LSpawn pid pa lz].
+  run_skip w s [LSpawn pid pa lz None].
 
 Definition load (w : setup) (s : state) (pid : nat) (pa : path) (lz : bool) : state :=
   solo w (fuel_of w) (spawn w s pid pa lz) pid.
+
+(* a load in an OS process that already completed load `prev` of the same path *)
+Definition loadp (w : setup) (s : state) (pid : nat) (pa : path) (lz : bool) (prev : option nat) : state :=
+  solo w (fuel_of w) (run_skip w s [LSpawn pid pa lz prev]) pid.
 
 (* the process dies when k chunks of its cache file have been written (the crash hook); a process that never
    writes (cache hit) runs to completion *)
@@ -335,6 +367,18 @@ Definition cli (w : setup) (s : state) (n : nat) (arch isa : path) (crash : opti
       end
   end.
 
+(* an analysis (osaca.run) inside an OS process whose _runtime_cache already holds the data of loads parch / pisa *)
+Definition cli_after (w : setup) (s : state) (n : nat) (arch isa : path) (parch pisa : option nat) : state :=
+  let s1 := loadp w s (3 * n) arch false parch in
+  match outcome_of s1 (3 * n) with
+  | ODone _ => let s2 := loadp w s1 (3 * n + 1) isa false pisa in
+               match outcome_of s2 (3 * n + 1) with
+               | ODone _ => load w s2 (3 * n + 2) arch true
+               | _ => s2
+               end
+  | _ => s1
+  end.
+
 (* outcome of a command line run: the first of its three loads that did not complete decides *)
 Definition cli_outcome (s : state) (n : nat) : outcome :=
   match outcome_of s (3 * n) with
@@ -366,6 +410,8 @@ Definition race (w : setup) (s : state) (pids : list nat) (pa : path) (sched : n
 Inductive event :=
 | EvCli (n : nat) (arch isa : path) (crash : option nat)
 | EvLoad (pid : nat) (pa : path) (lz : bool)
+| EvLoadP (pid : nat) (pa : path) (prev : nat)      (* non-lazy load in the OS process that ran load prev *)
+| EvCliP (n : nat) (arch isa : path) (parch pisa : option nat)   (* analysis in a process that ran those loads *)
 | EvEdit (pa : path) (c : content)
 | EvPlant (l : loc) (k : nat) (d : data)            (* the environment puts the first k chunks of pickle(d) there *)
 | EvRace (pids : list nat) (pa : path)
@@ -379,6 +425,8 @@ Definition ev_step (w : setup) (ss : list state) (e : event) : list state :=
   match e with
   | EvCli n a i c => map (fun s => cli w s n a i c) ss
   | EvLoad pid pa lz => map (fun s => load w s pid pa lz) ss
+  | EvLoadP pid pa prev => map (fun s => loadp w s pid pa false (Some prev)) ss
+  | EvCliP n a i pa pi => map (fun s => cli_after w s n a i pa pi) ss
   | EvEdit pa c => map (fun s => run_skip w s [LEdit pa c]) ss
   | EvPlant l k d => map (fun s => mkState (yaml s) (updf (files s) l (Some (repeat (Some d) k))) (procs s)) ss
   | EvRace pids pa => flat_map (fun s => [race w s pids pa 0; race w s pids pa 1; race w s pids pa 2]) ss
